@@ -27,6 +27,7 @@ func init() {
 	register(&Prop{
 		ID: "C17",
 		Rule: "random small OSM data sets (0..8 nodes with/without location and interesting/uninteresting tags, 0..4 ways sharing nodes, closed/open, area and non-area tags, missing nodes, annotated way nodes; 0..3 relations of type route/multipolygon/boundary/other with node, way and relation members, missing ways, inline member nodes) x all 16 option combinations (each data set under its baseline and 3 other option sets); " +
+			"plus (5%) one route or multipolygon relation over a shuffled chain of 7..11 ways; " +
 			"non-trivial = at least two features or a relation feature; distinct = distinct op line",
 		Gen:   c17Gen,
 		Exec:  c17Exec,
